@@ -475,7 +475,9 @@ def judge(hist, ev, viols, rec):
     w2 = replay(hist)
     v2 = step(w2, ev)[0]
     if v2 != viols:
-        raise RuntimeError(f"nondeterministic observation for {case_of(hist, ev)}: {viols} vs {v2}")
+        # depends on what ran before in this process (hidden state) or is nondeterministic:
+        # the harness re-executes every reported violation (case, then whole shard in a fresh process) and decides
+        rec.count("diverged_on_immediate_reexecution")
     for clause, detail in viols:
         rec.violation(METHOD[op_of(ev)], clause, case_of(hist, ev, with_recipe=True),
                       f"{detail} || recipe: " + "; ".join(recipe(hist, ev)))
